@@ -403,7 +403,18 @@ def canaries(a):
     rnd = random.Random(int(os.environ.get('VERIF_SEED', '0') or 0))
     sample = rnd.sample(killed, min(a.n, len(killed)))
     base_ref = base_refuted(idx)
-    tasks = [(r['file'], r['function'], r['site'], [r['killed_by']['harness']], base_ref) for r in sample]
+    # every harness of the property (or of any property) that executes the mutated function may kill the canary
+    users = {}
+    for hn, h in idx['harnesses'].items():
+        if props and not (set(h['props']) & props):
+            continue
+        for q in h['executed']:
+            users.setdefault(q, []).append(hn)
+    tasks = []
+    for r in sample:
+        hs = [r['killed_by']['harness']] + [hn for hn in users.get('%s::%s' % (r['file'], r['function']), []) if hn != r['killed_by']['harness']]
+        hs = [hn for hn in hs if hn in idx['harnesses']]
+        tasks.append((r['file'], r['function'], r['site'], hs[:40], base_ref))
     ctx = mp.get_context('fork')
     with ctx.Pool(a.jobs) as pool:
         res = pool.map(_mutant_worker, tasks, chunksize=1)
